@@ -475,8 +475,8 @@ def stub(ctx):
            f"size={vals.get('size')} rank={vals.get('rank')}", init)
     for mname, ret in (("Get_size", "size"), ("Get_rank", "rank")):
         fi = ci.methods.get(mname)
-        ok = fi is not None and any(isinstance(nd, ast.Return) and isinstance(nd.value, ast.Attribute)
-                                    and nd.value.attr == ret for nd in ast.walk(fi.node))
+        from ..model import returned_values
+        ok = fi is not None and any(isinstance(v_, ast.Attribute) and v_.attr == ret for _, v_ in returned_values(fi.node))
         ctx.ob("BIND-5", f"config.not_a_comm.{mname} returns self.{ret}", ok, "", fi)
     for mname in ("Gather", "Scatter"):
         fi = ci.methods.get(mname)
@@ -490,8 +490,7 @@ def stub(ctx):
         ctx.ob("BIND-5", f"config.not_a_comm.{mname} copies the send buffer into the receive buffer", ok,
                "recbuf[:] = sendbuf" if ok else "stub does not copy send -> receive", fi)
     fi = ci.methods.get("bcast")
-    ok = fi is not None and any(isinstance(nd, ast.Return) and isinstance(nd.value, ast.Name)
-                                and nd.value.id == fi.params[1].name for nd in ast.walk(fi.node))
+    ok = fi is not None and any(isinstance(v_, ast.Name) and v_.id == fi.params[1].name for _, v_ in returned_values(fi.node))
     ctx.ob("BIND-5", "config.not_a_comm.bcast returns its argument", ok, "", fi)
     fi = ci.methods.get("Reduce")
     ok = False
